@@ -785,7 +785,7 @@ class Cas:
                 if ts.is_primitive(feature.rangeType):
                     continue
 
-                feature_value = getattr(fs, feature_name)
+                feature_value = getattr(fs, feature_name, None)
                 if feature_value is None:
                     continue
 
